@@ -71,4 +71,10 @@ CHECKS = {
         "level_note": "The plugin-free analysis of the same tree is the reference; trusts the token-matching walker.",
         "technique": "differential monitor (with vs without path-rewrite plugins) over seeded workloads",
     },
+    "C13": {
+        "level_text": "Exploration with a reference model of the whole OOV machinery (character classes, word-start permission, left-to-right class runs, MeCab / regex / simple providers, created-words bitmap, fallback) built from the generated definition files only; compared with the real InputBuffer tables and with the OOV nodes of the real lattice at every reachable position. Held on the counted positions.",
+        "design_ref": "DESIGN.md 6/C13",
+        "level_note": "Trusts the reference model (harness/src/mon_c13.rs) and hook H4; path-rewrite plugins are off in these worlds.",
+        "technique": "reference-model monitor over lattice candidates (hook H4) and InputBuffer tables",
+    },
 }
